@@ -656,6 +656,27 @@ Proof.
   apply in_or_app. right. apply in_or_app. left. vm_compute. left. reflexivity.
 Qed.
 
+(* the repaired render methods (message passed through xml_sanitize) need no hypothesis *)
+Lemma xml_sanitize_chars s c : In c (xml_sanitize s) -> xml_char c = true.
+Proof.
+  unfold xml_sanitize. intros H. apply in_map_iff in H. destruct H as [x [Hx _]].
+  destruct (xml_char x) eqn:E; subst c; [exact E|reflexivity].
+Qed.
+
+Lemma xml_sanitize_id s : (forall c, In c s -> xml_char c = true) -> xml_sanitize s = s.
+Proof.
+  induction s as [|x s IH]; intros H; [reflexivity|].
+  unfold xml_sanitize in *. cbn [map]. rewrite (H x (or_introl eq_refl)). rewrite IH; [reflexivity|].
+  intros c Hc. apply H. right. exact Hc.
+Qed.
+
+Lemma exception_documents_sanitized_xml_chars t code loc msg :
+  In t exception_templates -> In code (opt_strs exception_codes) -> In loc (opt_strs exception_locators) ->
+  forall c, In c (exception_doc t (xml_sanitize msg) code loc) -> xml_char c = true.
+Proof.
+  intros Ht Hc Hl. apply exception_documents_xml_chars; try assumption. apply xml_sanitize_chars.
+Qed.
+
 (* inserting text that contains the quote character into an attribute value does change the structure
    (finding `capabilities,host-header-markup`: the capabilities templates insert the request host unescaped) *)
 Lemma unescaped_attribute_refuted :
@@ -765,7 +786,7 @@ Proof. vm_compute. reflexivity. Qed.
 Example templates_nonempty :
   Nat.leb 1 (length exception_templates) = true /\ Nat.leb 1 (length exception_codes) = true /\
   In tpl_wms111exception exception_templates /\ In tpl_ows_exception exception_templates.
-Proof. vm_compute. repeat split; auto 12. Qed.
+Proof. vm_compute. repeat split; auto 40. Qed.
 
 Example c_InvalidSRS : str := [73; 110; 118; 97; 108; 105; 100; 83; 82; 83].
 
@@ -774,7 +795,7 @@ Example wms111_document : fixed_structure tpl_wms111exception (Some c_InvalidSRS
 Proof.
   apply exception_documents_fixed.
   - unfold exception_templates. cbn [In]. auto 8.
-  - vm_compute. auto 12.
+  - vm_compute. auto 40.
   - vm_compute. auto.
 Qed.
 
